@@ -14,7 +14,7 @@ from vx.rustscan import LostAnchor  # noqa
 
 REPO = os.environ.get("VERIF_REPO", "/repo")
 CONTRACTS = os.path.join(VERIF, "contracts")
-SMT_FAIL = re.compile(r"^error: (postcondition not satisfied|precondition not satisfied|assertion failed|invariant not satisfied"
+SMT_FAIL = re.compile(r"^error: (postcondition not satisfied|precondition not satisfied|precondition not met|assertion failed|invariant not satisfied"
                       r"|loop invariant not satisfied|possible arithmetic (under|over)flow|possible division by zero|index out of bounds"
                       r"|decreases not satisfied|could not prove termination|recursive function call|possible bit shift"
                       r"|unreachable|constructed value may fail|call to .* may panic|cannot show invariant|possible)", re.I)
@@ -272,7 +272,7 @@ def check_property(pid, tier, scratch, write_baseline=False):
                     if f["probe"] == "none":
                         continue
                     probes_expected += 1
-                    fr = r.fn.get(f["qual"])
+                    fr = r.fn.get(f["vname"])
                     if fr is None:
                         undecided.append("%s: probe: function %s not reported by verus" % (r.label, f["qual"]))
                     elif fr[0]:
@@ -296,7 +296,7 @@ def check_property(pid, tier, scratch, write_baseline=False):
                 if f.get("undecidable"):
                     undecidable_fns.setdefault((r.unit, f["qual"]), (f["undecidable"], f))
             # obligations: every function verus checked (exec fns under contract + lemmas)
-            quals = {f["qual"]: f for f in contract_fns}
+            quals = {f["vname"]: f for f in contract_fns}
             for name, (ok, ms, rlim, mode) in sorted(r.fn.items()):
                 if mode == "spec" and name not in quals:
                     continue
@@ -309,7 +309,8 @@ def check_property(pid, tier, scratch, write_baseline=False):
                 else:
                     in_base = name in base.get((r.unit, variant), set())
                     f = quals.get(name)
-                    errs = [e for e in cl["failures"] if name in e["fns"]] or cl["failures"]
+                    qn = f["qual"] if f else name
+                    errs = [e for e in cl["failures"] if qn in e["fns"]] or cl["failures"]
                     if f is None:
                         undecided.append("%s: lemma/aux function %s failed (does not depend on /repo source): machinery problem\n%s" % (r.label, name, (errs[0]["text"] if errs else "")[:2000]))
                         continue
@@ -324,7 +325,7 @@ def check_property(pid, tier, scratch, write_baseline=False):
                     for e in (errs or [dict(tags=[], kind="rejected", text="(no diagnostic captured)")]):
                         etags = [t for t in e["tags"] if pid in t.split(":")[0].split(",")]
                         ob = etags[0] if etags else "%s~%s" % (mine[0], re.sub(r"[^a-z]+", "-", e["kind"].lower())[:40])
-                        violations.append(dict(obligation=ob, fn=name, unit=r.unit, variant=variant, text=e["text"], kind=e["kind"],
+                        violations.append(dict(obligation=ob, fn=qn, unit=r.unit, variant=variant, text=e["text"], kind=e["kind"],
                                                file=f["file"], path=f["path"], body=f["orig_body"], diff=f["diff"]))
             if r.checks is False or len(P.get("checks_variants", {}).get(r.unit, [False, True])) == 1:
                 for f in r.em.functions:
@@ -333,7 +334,7 @@ def check_property(pid, tier, scratch, write_baseline=False):
                         meta["status"] = "assumed" + (" (proved in %s)" % f["proved_in"] if f.get("proved_in") else "")
                         assumed.append(meta)
                     else:
-                        t = r.fn.get(f["qual"])
+                        t = r.fn.get(f["vname"])
                         meta["status"] = "verified" if (t and t[0]) else "rejected"
                         meta["solver_ms"] = round(t[1], 1) if t else None
                         fn_meta.append(meta)
@@ -497,7 +498,8 @@ def sabotage_selftest(P, scratch, rl):
                 applied += 1
                 continue
             applied += 1
-            fr = r.fn.get(fn)
+            vn = {f["qual"]: f["vname"] for f in r.em.functions}.get(fn, fn)
+            fr = r.fn.get(vn)
             if fr is not None and not fr[0]:
                 rejected += 1
             elif fr is None:
@@ -529,7 +531,7 @@ def replay(pid, path, scratch):
             rc = 2
     if d.get("variant") != "native":
         r = UnitRun(d["unit"], scratch, checks=(d["variant"] == "checks_on"), rlimit=load_props()[pid].get("rlimit", 30)).go()
-        fr = r.fn.get(d["function"])
+        fr = r.fn.get({f["qual"]: f["vname"] for f in r.em.functions}.get(d["function"], d["function"]))
         und = r.undecidable.get(d["function"])
         print("verus on the current tree: obligation %s, function %s -> %s" % (d["obligation"], d["function"],
               ("undecidable: " + und) if und else ("no result" if fr is None else ("accepted" if fr[0] else "REJECTED"))))
